@@ -44,7 +44,9 @@ TRANSPARENT_DECLS_PREFIX = (
 
 CHECKED = {"checked_add": "Add", "checked_sub": "Sub", "checked_mul": "Mul", "checked_div": "Div",
            "checked_rem": "Rem", "checked_shl": "Shl", "checked_shr": "Shr"}
-RNG_DRAWS = {"gen", "gen_range", "gen_bool", "gen_ratio", "sample", "next_u32", "next_u64", "random"}
+RNG_DRAWS = {"gen", "gen_range", "gen_bool", "gen_ratio", "sample", "next_u32", "next_u64", "random",
+             # other impure sources: every call yields a distinct value
+             "next_value", "next_key", "next_element", "next_entry"}
 UNWRAPS = {"unwrap", "expect", "unwrap_unchecked"}
 
 FLOAT_METHODS = {"ln", "log2", "log10", "exp", "ceil", "floor", "sqrt", "abs", "round", "trunc", "sin", "asin", "powi", "powf",
